@@ -139,3 +139,14 @@ Fixpoint remove_links (n : fnode) : fnode :=
               end) kids)
   | _ => n
   end.
+
+(* create one more directory entry [nm] -> [l] in the directory [loc] *)
+Fixpoint add_node (n : fnode) (loc : path) (nm : string) (l : fnode) {struct loc} : fnode :=
+  match n with
+  | Dir kids =>
+      match loc with
+      | [] => Dir (kids ++ [(nm, l)])
+      | c :: r => Dir (map (fun x => if String.eqb (fst x) c then (fst x, add_node (snd x) r nm l) else x) kids)
+      end
+  | _ => n
+  end.
